@@ -5,7 +5,7 @@ EXTENDS Integers, Sequences, FiniteSets, TLC, Json, IOUtils
 
 Trace == ndJsonDeserialize(IOEnv.VH_TRACE)
 WDefaults == [format |-> "", indent |-> "4", noclobber |-> "false", fopt |-> ""]
-RDefaults == [fopt |-> "", retr |-> ""]
+RDefaults == [fopt |-> "", retr |-> "", format |-> ""]
 Over(base, f) == [o \in DOMAIN base |-> IF o \in DOMAIN f THEN f[o] ELSE base[o]]
 
 VARIABLES l, w, r    \* believed configurations of the live writer / reader instances
@@ -31,6 +31,11 @@ Judge(e) ==
             ELSE IF fmt = "spdx23" /\ e.callfmt = "" /\ e.usedindent # cfg.indent THEN {"config.call.indent"} ELSE {})
            \cup (IF e.insts = w /\ e.rinsts = r THEN {} ELSE {"config.call.persist"})
            \cup (IF e.fresh = WDefaults /\ e.rfresh = RDefaults THEN {} ELSE {"config.defaults"})
+    [] e.op = "Read" ->
+         \* parsing through an instance (auto-detection) works whatever was parsed before and leaves every configuration alone
+         (IF e.got = "ok" THEN {} ELSE {"config.read.result"})
+         \cup (IF e.insts = w /\ e.rinsts = r THEN {} ELSE {"config.call.persist"})
+         \cup (IF e.fresh = WDefaults /\ e.rfresh = RDefaults THEN {} ELSE {"config.defaults"})
     [] e.op = "StoreNoClobber" ->
          \* a second Store of the same document through instance e.i succeeds iff the instance was not built with no-clobber
          (IF e.second = (IF w[e.i].noclobber = "true" THEN "err" ELSE "ok") THEN {} ELSE {"config.store.noclobber"})
